@@ -294,7 +294,7 @@ impl Menu {
         for p in 0..5u8 {
             actions.push(Act::Pa(p));
         }
-        for g in 0..(if full { 4u8 } else { 2 }) {
+        for g in 0..(if full { 7u8 } else { 4 }) {
             actions.push(Act::Gen(g));
         }
         Menu { texts, args, arrays, actions }
@@ -513,7 +513,10 @@ pub fn apply(m: &Menu, s: &Regs, act: Act) -> Option<Regs> {
             let data: Vec<u8> = match g {
                 0 => b"Hello, World!\n".to_vec(),
                 1 => crate::corpus::repeat(&crate::corpus::W[1], 70),
-                2 => crate::corpus::repeat(&crate::corpus::W[0], 200),
+                2 => vec![0u8; 300],
+                3 => vec![],
+                4 => crate::corpus::repeat(&crate::corpus::W[0], 200),
+                5 => { let mut v = crate::corpus::repeat(&crate::corpus::W[2], 40); v.extend([0u8; 7]); v }
                 _ => vec![0xaa; 5000],
             };
             gen.update(&data);
